@@ -62,11 +62,20 @@ def nested(decl):
 
 
 def tval(kind, t):
+    if list(t) == [-1]:
+        return None           # the specification's BAD: a value the descriptor's function cannot work on
     return list(t) if kind == "rep" else bytes(t)
 
 
 def tabs(kind, v):
-    return list(v) if v is not None else None
+    return list(v) if v is not None else [-1]
+
+
+def read_attr(p):
+    try:
+        return p.dsc
+    except Exception:
+        return -2             # reading raises (the specification's -2)
 
 
 class Live:
@@ -106,7 +115,7 @@ class Live:
             except PacketError:
                 ok = False
         return {"op": op, "arg": list(arg), "ok": ok, "out": out, "hasdict": hasattr(self.p, "__dict__"),
-                "obs": {"read": self.p.dsc, "hidden": getattr(self.p, "_described_dsc", None), "tracked": tabs(self.kind, self.p.trk)}}
+                "obs": {"read": read_attr(self.p), "hidden": getattr(self.p, "_described_dsc", None), "tracked": tabs(self.kind, self.p.trk)}}
 
 
 _W = {}
@@ -162,6 +171,91 @@ def _wrun(chunk):
     return n, bad
 
 
+def overlap_part(v, cases, quick):
+    """Two threads, each serialising ITS OWN packet of one class, overlapping INSIDE the descriptor's function (the function is
+    wrapped so that a thread parks when it enters it; `order` releases the threads one entry at a time): each pack() must still
+    give what the specification gives for that packet alone (the histories [set_tracked t, pack] of MC_Auto)."""
+    import itertools
+    import threading
+    from bind import declgen
+    expected = {}
+    for c in cases:
+        h = c["hist"]
+        if c["kind"] == "auto" and len(h) >= 2 and h[0]["op"] == "set_tracked" and h[1]["op"] == "pack" and h[1]["ok"]:
+            expected[tuple(h[0]["arg"])] = h[1]["out"]
+    tvals = [t for t in ((65,), (65, 66), ()) if t in expected]
+    if len(tvals) < 2:
+        raise common.MachineryFailure("MC_Auto emitted no [set_tracked, pack] histories to take the expected bytes from")
+    n = 0
+    with declgen.Scratch() as sc:
+        for gi, gen in enumerate((rp.GEN_OFF, None)):
+            cls = sc.load(DECLS["auto"], gen, nonce=("overlap", gi)).C0
+            desc = cls.__dict__.get("dsc")
+            if desc is None or not callable(getattr(desc, "func", None)):
+                v.cov["overlap_not_observable"] = True      # the descriptor keeps its function elsewhere: nothing to park in
+                return
+            orig = desc.func
+            for order in itertools.product((0, 1), repeat=3 if quick else 5):
+                gates = [threading.Semaphore(0), threading.Semaphore(0)]
+                arrived = [threading.Semaphore(0), threading.Semaphore(0)]
+                done = [False, False]
+                results = [None, None]
+                tl = threading.local()
+
+                def fn(instance, orig=orig):
+                    i = getattr(tl, "idx", None)
+                    if i is not None:
+                        arrived[i].release()
+                        gates[i].acquire()
+                    return orig(instance)
+                pkts = [cls(), cls()]
+                pkts[0].trk, pkts[1].trk = bytes(tvals[0]), bytes(tvals[1])
+
+                def body(i):
+                    tl.idx = i
+                    arrived[i].release()
+                    gates[i].acquire()
+                    try:
+                        results[i] = ("ok", list(pkts[i].pack()))
+                    except Exception as ex:
+                        results[i] = ("error", type(ex).__name__)
+                    done[i] = True
+                    arrived[i].release()
+                desc.func = fn
+                try:
+                    ths = [threading.Thread(target=body, args=(i,)) for i in (0, 1)]
+                    for t in ths:
+                        t.start()
+                    for i in (0, 1):
+                        arrived[i].acquire()
+
+                    def step(i):
+                        if not done[i]:
+                            gates[i].release()
+                            arrived[i].acquire()
+                    for i in order:
+                        step(i)
+                    while not done[0]:
+                        step(0)
+                    while not done[1]:
+                        step(1)
+                    for t in ths:
+                        t.join()
+                finally:
+                    desc.func = orig
+                n += 1
+                v.count_case(("overlap", gi, order), nontrivial=True)
+                for i in (0, 1):
+                    exp = ("ok", expected[tvals[i]])
+                    if results[i] != exp:
+                        v.violation("C17_PackBytes", "two threads serialising their own packets, overlapping inside the descriptor's function "
+                                    "(schedule %r): thread %d got %r, the specification gives %r for that packet" % (order, i, results[i], exp),
+                                    {"gen": gen, "order": order})
+                        return
+    v.cov["overlapping_packs_executed"] = n
+    v.cov["traces_validated_against_impl"] += n
+
+
 def run(tier, seed):
     v = common.Verdict("C17", tier, seed)
     common.bind_repo()
@@ -194,6 +288,7 @@ def run(tier, seed):
     v.cov["traces_validated_against_impl"] += n
     for b in bad[:50]:
         v.violation(b["clause"], b["detail"], b)
+    overlap_part(v, cases, quick)
     # code -> spec: longer random histories
     rnd = random.Random(seed)
     from bind import declgen
@@ -209,7 +304,7 @@ def run(tier, seed):
                 if op == "new":
                     arg = [rnd.choice([-1, -1, 0, 3, 255, 256, 1000])]
                 elif op == "set_tracked":
-                    arg = [rnd.choice([1, 65, 66, 200]) for _ in range(rnd.randint(0, 5))]
+                    arg = [rnd.choice([1, 65, 66, 200]) for _ in range(rnd.randint(0, 5))] if rnd.random() < 0.85 else [-1]
                 elif op == "set_described":
                     arg = [rnd.choice([0, 1, 2, 5, 255, 256, 70000])]
                 elif op == "unpack":
